@@ -230,3 +230,64 @@ def must_dataflow(cfg, init, transfer_elem, transfer_edge=None, universe=None):
         return cur
 
     return IN, before
+
+
+def partitioned_dataflow(cfg, init, transfer_elem, transfer_edge=None, max_states=32):
+    """Forward analysis over *sets of fact-sets* (trace partitioning): join is union of states, so correlations between
+    facts (a flag is false <=> a loop did not run) survive merges; transfer_edge may return the string 'prune' for an
+    infeasible edge. When a block accumulates more than max_states states they are collapsed to their intersection
+    (sound for must-facts: obligations are checked on every state).
+    Returns before(block, pos) -> list of fact sets (empty list = unreachable)."""
+    IN = {b: set() for b in cfg.blocks}
+    IN[cfg.entry] = {frozenset(init)}
+    work = [cfg.entry]
+    rounds = 0
+    while work and rounds < 20000:
+        rounds += 1
+        bid = work.pop()
+        b = cfg.blocks[bid]
+        outs = []
+        for st in IN[bid]:
+            cur = set(st)
+            for e in b.elems:
+                r = transfer_elem(cur, e)
+                if r is not None:
+                    cur = r
+            outs.append(cur)
+        for k, s in enumerate(b.succ):
+            if s < 0:
+                continue
+            new_states = set()
+            for cur in outs:
+                out = set(cur)
+                if transfer_edge is not None:
+                    r = transfer_edge(out, b, k)
+                    if isinstance(r, str) and r == "prune":
+                        continue
+                    if r is not None:
+                        out = r
+                new_states.add(frozenset(out))
+            merged = IN[s] | new_states
+            if len(merged) > max_states:
+                inter = None
+                for m in merged:
+                    inter = set(m) if inter is None else (inter & m)
+                merged = {frozenset(inter or ())}
+            if merged != IN[s]:
+                IN[s] = merged
+                work.append(s)
+
+    def before(bid, pos):
+        res = []
+        for st in IN[bid]:
+            cur = set(st)
+            for e in cfg.blocks[bid].elems:
+                if e.pos >= pos:
+                    break
+                r = transfer_elem(cur, e)
+                if r is not None:
+                    cur = r
+            res.append(cur)
+        return res
+
+    return IN, before
